@@ -12,6 +12,7 @@
         -> `ok d00 …` | `raise`   (the whole of HOADecoderDesign.design from the pack's metadata: norm_*, sph_harm inside)
         `sph <N3D|SN3D|FuMa> <n> <m> <az> <el>` -> `<float>` | `raise`      (hoa.sph_harm, one channel, one direction)
         `frame <C> <lfe bits> | decoder rows (k*C) | x (C)` -> `ok o0 o1 …` (#bits) | `shape-error`   (one rendered frame)
+        `defaults` -> `<normMeanPower 0|1> <maxRE 0|1> <scale>`   (the model's default options `({} : Opts)`)
    `bad-op` for a malformed line. -/
 import Earverif.Model.Hoa
 import Earverif.Driver.Util
@@ -62,6 +63,12 @@ def parseScale : String → Option MaxREScale
   | "components" => some .components
   | "order" => some .order
   | _ => none
+
+def showScale : MaxREScale → String
+  | .none => "none"
+  | .speakers => "speakers"
+  | .components => "components"
+  | .order => "order"
 
 def parseBool : String → Option Bool
   | "0" => some false
@@ -175,6 +182,12 @@ def answer (line : String) : String :=
         if !parts.isEmpty then none
         let (n, m) := fromAcn (← k.toNat?)
         some s!"{n} {m}"
+      | ["defaults"] =>
+        -- the model's default options `({} : Opts)`, compared with a fresh `HOADecoderDesign(layout)` on every run
+        if !parts.isEmpty then none
+        else
+          let o : Opts := {}
+          some s!"{if o.normMeanPower then 1 else 0} {if o.maxRE then 1 else 0} {showScale o.maxREScale}"
       | "route" :: rest => answerRoute rest parts
       | "frame" :: rest => answerFrame rest parts
       | "designpack" :: rest => answerDesignPack rest parts
